@@ -500,8 +500,9 @@ Example C05_ex_mutual_v6 : accepted ex_mutual_v6 decl_mutual = Some false.
 Proof. vm_compute. reflexivity. Qed.
 Example C05_ex_mutual_v8 : accepted ex_mutual_v8 decl_mutual = Some false.
 Proof. vm_compute. reflexivity. Qed.
-(* a loop with Break/Continue and an expression-valued Cond *)
-Example C05_ex_loop_v5 : accepted ex_loop_v5 [] = Some false.
+(* a loop with Break/Continue and an expression-valued Cond; strict thanks to the flow-sensitive slot types:
+   the loop counter is loaded as uint64 *)
+Example C05_ex_loop_v5 : accepted ex_loop_v5 [] = Some true.
 Proof. vm_compute. reflexivity. Qed.
 (* a program without anytype cells: the strict premise of C05_no_anytype_no_type_error is satisfiable *)
 Example C05_ex_strict_v6 : accepted ex_strict_v6 [] = Some true.
